@@ -525,3 +525,56 @@ def e12_cache_before_recompute(ctx) -> None:
             ctx.ok("E12", "a needed key is recomputed only when the cache does not hold it")
         else:
             ctx.violation("E12", c, f"`{norm(c)}` is evaluated without `{key} not in <cache>`: cached rules are recomputed (and fail when the pack cannot make them)")
+
+
+def e13_reverse_switch_read_live(ctx) -> None:
+    """`reverse` is a switch of a live database: expand_comb_class seeds the new database with
+    reverse=False and turns it on afterwards (`ruledb.reverse = reverse`).  RuleDBForest.add
+    therefore asks `self.reverse` each time it is handed a rule; a copy taken in __init__ (or
+    anything derived from one) never sees the switch being turned."""
+    P = ctx.P
+    m = P.need_method("RuleDBForest", "add", own=True)
+    f = m.node
+    ctx.analysed(m)
+    revs = [c for c in walk_local(f) if isinstance(c, ast.Call) and isinstance(c.func, ast.Attribute) and c.func.attr == "to_reverse_rule"]
+    if not revs:
+        ctx.violation("E13", f, "RuleDBForest.add no longer inserts the reverse forms of a reversible rule", construct="RuleDBForest.add reverse forms")
+        return
+    for c in revs:
+        gs = {(norm(e), p_) for e, p_ in C.flatten_guards(C.guards(f, c))}
+        if ("self.reverse", True) in gs:
+            ctx.ok("E13", "reverse forms are inserted under the database's current `reverse` switch")
+        else:
+            ctx.violation("E13", c, "the reverse forms are inserted under " + str(sorted(t for t, p_ in gs if p_)[:3]) + ", not under `self.reverse` as it is now: the switch is turned "
+                          "on after a database was seeded (expand_verified's second attempt), and a value remembered at construction never sees that")
+    cons = P.need_method("CombinatorialSpecification", "expand_comb_class", own=True)
+    ctx.analysed(cons)
+    mk = [c for c in walk_local(cons.node) if isinstance(c, ast.Call) and norm(c.func) == "RuleDBForest"]
+    if mk and all(any(k.arg == "reverse" and isinstance(k.value, ast.Constant) and k.value.value is False for k in c.keywords) for c in mk):
+        ctx.ok("E13", "the database that is seeded with the old rules is created with reverse=False")
+    else:
+        ctx.violation("E13", mk[0] if mk else cons.node, "expand_comb_class must create the database it seeds with reverse=False (the default is True): the old rules would be "
+                      "inserted with all their reverse forms, including reverses of rules that are themselves reverse rules")
+
+
+def e14_every_bucket_minimised(ctx) -> None:
+    """_minimize runs _minimize_key for every bucket of MINIMIZE_ORDER: the rules of a bucket
+    that is skipped are all kept as they are -- or, after the others were minimised against
+    them, none of them is in needed_rules at all."""
+    P = ctx.P
+    m = P.need_method(EX, "_minimize", own=True)
+    f = m.node
+    ctx.analysed(m)
+    loops = [l for l in walk_local(f) if isinstance(l, ast.For) and "MINIMIZE_ORDER" in norm(l.iter)]
+    if not loops:
+        raise AnalysisError("E14: _minimize no longer walks MINIMIZE_ORDER")
+    lp = loops[0]
+    calls = [c for c in walk_local(lp) if isinstance(c, ast.Call) and norm(c.func) == "self._minimize_key"]
+    skips = [n for n in walk_local(lp) if isinstance(n, (ast.Continue, ast.Break))]
+    guarded = [c for c in calls if C.guards(f, c, within=lp)]
+    if calls and not skips and not guarded and norm(calls[0].args[0]) == norm(lp.target):
+        ctx.ok("E14", "every bucket of MINIMIZE_ORDER is minimised, unconditionally")
+    else:
+        bad = (skips or guarded or [lp])[0]
+        ctx.violation("E14", bad, "a bucket of MINIMIZE_ORDER can be skipped in _minimize: its rules are never moved to needed_rules, so a class that is only counted through that "
+                      "bucket (a cached reverse rule in a database created with reverse=False) ends up without a rule")
